@@ -26,5 +26,6 @@ try:
             print('   ' + l[:300])
 finally:
     subprocess.run(['git', '-C', '/repo', 'worktree', 'remove', '--force', rw])
-    # point go.work back at /repo
-    subprocess.run(['python3', '-c', 'import sys; sys.path.insert(0, "%s/tools"); import runner; runner.write_gowork()' % VERIF])
+    # point go.work back at /repo and regenerate lean/RoGen from it (the run above left the tables of the scratch tree there)
+    subprocess.run(['python3', '-c', 'import sys, os, subprocess; sys.path.insert(0, "%s/tools"); import runner; runner.write_gowork(); '
+                    'subprocess.run([os.path.join(runner.GO, "bin", "extract"), "-repo", "/repo", "-out", os.path.join(runner.LEAN, "RoGen")], env=runner.GOENV)' % VERIF])
